@@ -2,6 +2,7 @@ import Secp.Gen.GroupAPI
 import Secp.Proofs.XmdTies
 import Secp.Proofs.XmdLength
 import Secp.Proofs.ElementApiTies
+import Secp.Proofs.BytesTies
 /-!
 # The regenerated `HashToScalar`, `HashToGroup`, `EncodeToGroup` (`GenGroup`) equal the model `Hand.Group`
 for every hash function with 32-byte digests, every message and every DST (the empty one included: both sides are `none`).
@@ -23,13 +24,17 @@ theorem expand_some (H : Bytes → Bytes) (hH : HashOK H) (input dst : Bytes) (l
     exact ⟨_, (expand_length H hH input dst len).1, expandXMD_eq H input dst len h0 hl, expandXMD_eq H input dst len h0 hl⟩
 
 theorem hashToScalar_tie (H : Bytes → Bytes) (hH : HashOK H) (input dst : Bytes) :
-    GenGroup.hashToScalar handHashOps H input dst = Hand.Group.hashToScalar H input dst := by
-  unfold GenGroup.hashToScalar Hand.Group.hashToScalar
+    GenGroup.hashToScalar H input dst = Hand.Group.hashToScalar H input dst := by
+  unfold GenGroup.hashToScalar Hand.Group.hashToScalar GenGroup.newScalar GenGroup.newScalarRaw
   rcases expand_some H hH input dst 48 (by norm_num) with ⟨_, h1, h2⟩ | ⟨u, hu, h1, h2⟩
   · simp only [h1, h2]; rfl
   · simp only [h1, h2]
-    have ht : List.take 48 u = u := by rw [← hu]; exact List.take_length
-    simp [Prim.toArray, hu, handHashOps, ht]
+    have ht : Prim.toArray u 48 = some u := by
+      unfold Prim.toArray
+      rw [if_pos (by omega)]
+      exact congrArg some (by rw [← hu]; exact List.take_length)
+    simp only [Option.bind_eq_bind, Option.bind_some, Option.pure_def, ht, BytesTies.fn_hashToFieldElement _ u hu,
+      Option.map_some]
 
 theorem encodeToGroup_tie (H : Bytes → Bytes) (hH : HashOK H) (input dst : Bytes) :
     GenGroup.encodeToGroup Hand.limbOps handHashOps H input dst = Hand.Group.encodeToGroup H input dst := by
